@@ -86,3 +86,15 @@ package maypanic
 //@   ensures reported: has(goFunctions, gf) && called(doesDeferRecover, gf, recoverFunctions) && !retof(doesDeferRecover, gf, recoverFunctions) ==> has(result, gf) && result[gf]
 //@   ensures all_consulted: has(goFunctions, gf) ==> called(doesDeferRecover, gf, recoverFunctions)
 //@   loop f invariant seen: visited(f, gf) ==> called(doesDeferRecover, gf, recoverFunctions) && (!retof(doesDeferRecover, gf, recoverFunctions) ==> has(result, gf) && result[gf])
+
+// A function is treated as "recovering" only because doesRecover said so.
+//@ func findRecoverFunctions
+//@   property C19
+//@   ghost rf *ssa.Function
+//@   requires forall g *ssa.Function :: has(allFunctions, g) ==> g != nil
+//@   requires forall g *ssa.Function, b int :: has(allFunctions, g) && 0 <= b && b < len(g.Blocks) ==> g.Blocks[b] != nil
+//@   requires forall g *ssa.Function, b int, i int :: has(allFunctions, g) && 0 <= b && b < len(g.Blocks) && 0 <= i && i < len(g.Blocks[b].Instrs) && RI(g, b, i) != nil ==> ref(RI(g, b, i)) != 0
+//@   ensures only_recovering: has(result, rf) ==> called(doesRecover, rf) && retof(doesRecover, rf)
+//@   ensures all_recovering: has(allFunctions, rf) && called(doesRecover, rf) && retof(doesRecover, rf) ==> has(result, rf)
+//@   loop f invariant frame: preserved(all)
+//@   loop f invariant inv: isfresh(result) && (has(result, rf) ==> visited(f, rf) && called(doesRecover, rf) && retof(doesRecover, rf)) && (visited(f, rf) && retof(doesRecover, rf) ==> has(result, rf))
